@@ -31,6 +31,7 @@ type loopRT struct {
 	lc      *LoopContract
 	entered bool
 	dec0    *Term
+	sliceObj map[*ssa.Phi]*Obj
 }
 
 func (fr *Frame) loc(instr ssa.Instruction) string {
@@ -163,7 +164,7 @@ func (s *State) run(fn *ssa.Function, args []Value, isRoot bool, fc *FuncContrac
 		heads := loopHeaders(fn)
 		for ord, h := range heads {
 			if lc, ok := fc.Loops[ord]; ok && !lc.Unroll {
-				fr.loops[h] = &loopRT{ord: ord, lc: lc}
+				fr.loops[h] = &loopRT{ord: ord, lc: lc, sliceObj: map[*ssa.Phi]*Obj{}}
 			}
 		}
 		for ord := range fc.Loops {
@@ -176,7 +177,7 @@ func (s *State) run(fn *ssa.Function, args []Value, isRoot bool, fc *FuncContrac
 	b := fn.Blocks[0]
 	for {
 		fr.visits[b]++
-		if fr.visits[b] > 600 {
+		if fr.visits[b] > 80 {
 			unsup("loop at block %d of %s needs an invariant (iteration cap reached)", b.Index, fn)
 		}
 		if lrt := fr.loops[b]; lrt != nil {
@@ -323,7 +324,33 @@ func (fr *Frame) loopHeader(b, prev *ssa.BasicBlock, lrt *loopRT) {
 		// havoc: header phis and declared heap regions
 		for _, in := range b.Instrs {
 			if phi, ok := in.(*ssa.Phi); ok {
+				if sl, ok := fr.env[phi].(*SliceV); ok && sl.object() != nil {
+					// a slice loop variable stays a view of the same backing array (checked at the back edge);
+					// its window is arbitrary
+					o := sl.object()
+					nm := "loop." + phiName(phi)
+					off, l, c := s.freshVar(nm+".off", BV(64)), s.freshVar(nm+".len", BV(64)), s.freshVar(nm+".cap", BV(64))
+					s.lenAssume(off)
+					s.lenAssume(l)
+					s.lenAssume(c)
+					s.assume(CmpBV("bvsle", l, c))
+					s.assume(CmpBV("bvsle", Add(off, c), s.arrayOf(o).N))
+					fr.env[phi] = &SliceV{Obj: o, Off: off, Len: l, Cap: c, Elem: sl.Elem}
+					lrt.sliceObj[phi] = o
+					continue
+				}
 				fr.env[phi] = s.symValue(phi.Type(), "loop."+phiName(phi))
+			}
+		}
+		if lc.ModifiesFresh {
+			for id, cur := range s.heap {
+				o := s.objIndex[id]
+				if o == nil || !o.Fresh || o.Ghost != "" {
+					continue
+				}
+				if av, ok := cur.(*ArrayV); ok && av.Arr != nil {
+					s.heap[id] = &ArrayV{Arr: &ArrVar{Name: s.freshName("loop.fresh"), W: av.Arr.ElemW()}, N: av.N, Elem: av.Elem}
+				}
 			}
 		}
 		for _, m := range lc.Modifies {
@@ -340,6 +367,11 @@ func (fr *Frame) loopHeader(b, prev *ssa.BasicBlock, lrt *loopRT) {
 		return
 	}
 	// back edge
+	for phi, o := range lrt.sliceObj {
+		if sl, ok := newPhi[phi].(*SliceV); !ok || sl.object() != o {
+			unsup("slice loop variable %s changes its backing array inside the loop", phiName(phi))
+		}
+	}
 	for i, c := range lc.Invariants {
 		g := s.evalClause(c, args(), s.entry)
 		s.oblige("loop", fmt.Sprintf("loop%d:preserve:%d", lrt.ord, i), g)
